@@ -29,8 +29,19 @@ RULE = ("bundle cases: one base config (random line list of 0..14 lines from the
         "raw stream: random and exhaustive (alphabet a,LF,CR,VT; all texts up to length 5 quick / 6 thorough) texts as str form "
         "and as file content. malformed stream: '', single-line strings that name no file, a str ending in a line break, "
         "missing file given as str and as pathlib.Path. split cases: str.splitlines, re.split(<default linesplit_rgx of read_config_file>) and newline=None "
-        "translation (io.StringIO) on the same texts, compared with the model's primitives. Directories, unreadable files, "
-        "undecodable bytes, non-str list items, lone surrogates, factory=True and syntax='junos' are not generated. "
+        "translation (io.StringIO) on the same texts, compared with the model's primitives. "
+        "rejection stream (channel inputx, model Ccp.Model.InputArgs): the config argument as a collection given item by item - class "
+        "list / tuple / another Sequence (deque, UserList, bytes, bytearray, range, ConfigList) / sized non-sequence (set, frozenset, "
+        "dict) x items str / BaseCfgLine object / foreign type (int, None, bytes, list, float), empty ones included; objects with "
+        "len() whose iteration raises TypeError or AttributeError (len 0 and > 0); objects without len() (int, float, bool, generator, "
+        "iterator, object()); a one-line str / pathlib.Path naming a directory (incl. '.', './sub', 'sub/'); a file whose bytes the "
+        "codec rejects (utf-8, ascii); a regular file whose read() raises OSError (/proc/self/mem, str and Path); the oracle demands "
+        "a rejection for everything but a list / tuple of str, the exception class is compared with the model. after stream: on an "
+        "object built from a clean line list (utf-8 / latin-1, with and without characters the codec cannot encode) a sequence of "
+        "save_as to a writable name / an existing directory / a name under a missing directory, and read_config_file on the finished "
+        "object (RequirementFailure); bytes written resp. exception class compared, the oracle demands an exception for a bad target "
+        "or unencodable text and the saved lines otherwise. "
+        "Lone surrogates, factory=True and syntax='junos' are not generated. "
         "non-trivial = a bundle with >= 2 lines or a raw text containing a line break; distinct by request line.")
 LEVEL_TEXT = ("Theorems (Lean 4, all line lists / all texts / any number of cycles): for break-free lines (>= 2, last one not empty) "
               "list, tuple and the str joined with LF or CRLF, with or without a final line end, are read as the same lines and give "
@@ -39,6 +50,11 @@ LEVEL_TEXT = ("Theorems (Lean 4, all line lists / all texts / any number of cycl
               "splitting of the translated text (trailing empty element kept); from the first save on, any number of load/save "
               "cycles writes the same text and reads the same lines, for every tree configuration incl. ignore_blank_lines and "
               "os.linesep LF or CRLF. The reader/writer constants of /repo are regenerated and proved equal to the modelled ones. "
+              "Rejection side (any Python object as config; directories, unreadable and undecodable files at a path): the extended reader "
+              "agrees with the old one on the five forms over plain files (loadArg_conservative); a collection is loaded only if it is a "
+              "list / tuple whose items are all str, and then as exactly these lines (only_str_lists_load, str_items_are_the_list), with "
+              "the exception classes of the rejections (rejection_classes, bad_path_nodes_rejected); save_as raises for a target that "
+              "cannot be opened or text the codec cannot encode and otherwise writes exactly the modelled text (save_failures). "
               "Model tied to CiscoConfParse by differential runs with real temp files on every check.")
 LEVEL_NOTE = ("Trusted: Lean kernel, axioms propext/Classical.choice/Quot.sound, the harness. Modelled not verified: text-mode open() "
               "(universal newlines on read, '\\n' -> os.linesep on write) as pure functions on decoded text; encodings are outside the "
@@ -48,7 +64,10 @@ LEVEL_NOTE = ("Trusted: Lean kernel, axioms propext/Classical.choice/Quot.sound,
 EXHAUSTIVE = {"quick": False, "thorough": False}
 ASSUMPTIONS = [
     "a file is its decoded text; decoding errors (UnicodeDecodeError) are outside the model",
-    "fs p = none means os.path.exists(p) is false; directories / permission errors are not modelled",
+    "fs p = none means os.path.exists(p) is false; in the extended model (Ccp.Model.InputArgs) a path may also hold a directory, "
+    "an unreadable or an undecodable regular file; which bytes a codec rejects is decided by Python, not by the model",
+    "Python objects other than None / list / tuple / str / Path enter the model by four observations: has len(), iterable, "
+    "class kind (list, tuple, other Sequence, not a Sequence), and per item str / BaseCfgLine / other",
     "os.linesep is LF (measured) or CRLF (simulated through newline='\\r\\n')",
     "no lone surrogates",
 ]
@@ -73,15 +92,38 @@ def selfcheck():
 
 
 # ------------------------------------------------------------------ case construction
+def _item_token(it):
+    return wire.enc_str(it[1]) if it[0] == "s" else it[0]
+
+
 def _req(case):
     if case["kind"] == "split":
         return wire.req("input", "split", wire.enc_str(case["text"]))
     ds = T.cfg_delims(case["syntax"], None)
+    if case["kind"] == "after":
+        return "\t".join(["inputx", "after", "1" if case["syntax"] == "ios" else "0", wire.enc_str("".join(ds)),
+                          "1" if case["ignore_blank"] else "0", wire.enc_str(case["linesep"]), case["encoding"],
+                          wire.enc_strs(case["lines"])] + list(case["ops"]))
     fields = ["input", "1" if case["syntax"] == "ios" else "0", wire.enc_str("".join(ds)),
               "1" if case["ignore_blank"] else "0", wire.enc_str(case["linesep"]), str(case["cycles"])]
+    if case["kind"] == "xbundle":
+        fields[0:1] = ["inputx", "forms"]
     for f in case["forms"]:
         kind = f["form"]
-        if kind in ("list", "tuple"):
+        if kind == "coll":          # a collection given item by item: <class kind>( <item>)*
+            fields += ["coll", " ".join([f["kind"]] + [_item_token(it) for it in f["items"]]), "s", "-"]
+        elif kind == "noiter":
+            fields += ["noiter", str(int(f["len"])), "s", "-"]
+        elif kind == "unsized":
+            fields += ["unsized", "s", "s", "-"]
+        elif kind in ("dir", "dirpath"):        # the (one-line) name of an existing directory
+            nm = f["name"] if kind == "dir" else path_text(f["name"])
+            fields += ["str" if kind == "dir" else "path", wire.enc_str(nm), wire.enc_str(nm), "d"]
+        elif kind == "badbytes":                # a file whose bytes the codec rejects
+            fields += ["str", wire.enc_str(f["name"]), wire.enc_str(f["name"]), "u"]
+        elif kind == "unreadable":              # a regular file whose read() raises OSError, named as str or Path
+            fields += ["path" if f.get("as_path") else "str", wire.enc_str(f["name"]), wire.enc_str(f["name"]), "r"]
+        elif kind in ("list", "tuple"):
             fields += [kind, wire.enc_strs(f["lines"]), "s", "-"]
         elif kind == "none":
             fields += ["none", "s", "s", "-"]
@@ -113,6 +155,22 @@ def mk_bundle(syntax, ign, linesep, cycles, forms, base=None, origin="gen", tag=
     return case
 
 
+def mk_xbundle(syntax, ign, linesep, cycles, forms, origin="gen", tag="xbundle"):
+    """forms of the rejection side (channel inputx): collections with foreign items, other classes, directories, bad bytes"""
+    case = {"kind": "xbundle", "tag": tag, "syntax": syntax, "ignore_blank": bool(ign), "linesep": linesep,
+            "cycles": int(cycles), "forms": forms, "base": None, "_origin": origin}
+    case["req"] = _req(case)
+    return case
+
+
+def mk_after(syntax, ign, linesep, encoding, lines, ops, origin="gen"):
+    """operations on a finished object: save_as to good / bad targets, read_config_file once more"""
+    case = {"kind": "after", "tag": "after", "syntax": syntax, "ignore_blank": bool(ign), "linesep": linesep,
+            "encoding": encoding, "lines": list(lines), "ops": list(ops), "_origin": origin}
+    case["req"] = _req(case)
+    return case
+
+
 def mk_split(text, origin="gen"):
     case = {"kind": "split", "text": text, "_origin": origin}
     case["req"] = _req(case)
@@ -122,6 +180,10 @@ def mk_split(text, origin="gen"):
 def from_corpus(c):
     if c["kind"] == "split":
         return mk_split(c["text"], "corpus")
+    if c["kind"] == "xbundle":
+        return mk_xbundle(c["syntax"], c["ignore_blank"], c["linesep"], c["cycles"], c["forms"], "corpus", c.get("tag", "xbundle"))
+    if c["kind"] == "after":
+        return mk_after(c["syntax"], c["ignore_blank"], c["linesep"], c["encoding"], c["lines"], c["ops"], "corpus")
     return mk_bundle(c["syntax"], c["ignore_blank"], c["linesep"], c["cycles"], c["forms"], c.get("base"), "corpus",
                      c.get("tag", "bundle"))
 
@@ -181,6 +243,130 @@ MALFORMED_STR = ["", "hostname R1", "hostname R1\n", "a\r\n", "\n", "\r", "\x0b"
                  "x" * 300, "interface Ethernet1\x0c"]
 
 
+SEQ_CLASSES = ["deque", "UserList", "bytes", "bytearray", "range", "ConfigList"]
+SIZED_CLASSES = ["set", "frozenset", "dict"]
+OTHER_ITEMS = ["int", "None", "bytes", "list", "float"]
+UNSIZED = ["int", "float", "bool", "generator", "object", "iterator"]
+NOITER = ["no-iter", "iter-TypeError", "iter-AttributeError"]
+BAD_BYTES = {"utf-8": ["636166e90a", "ff", "610a80620a", "c3", "eda080"], "ascii": ["e9"]}
+DIR_NAMES = ["d.cfg", "my dir", ".", "./sub", "sub/", "é"]
+# a regular file (os.path.isfile) that cannot be read even by root: reading it raises OSError (EIO) on Linux
+UNREADABLE = [n for n in ["/proc/self/mem"] if os.path.isfile(n)]
+
+
+def _rand_items(rng, n, p_other, p_line):
+    out = []
+    for _ in range(n):
+        r = rng.random()
+        if r < p_other:
+            out.append(["O", rng.choice(OTHER_ITEMS)])
+        elif r < p_other + p_line:
+            out.append(["L"])
+        else:
+            out.append(["s", rng.choice(["a", " b", "", "!", "interface Ethernet1", " shutdown", "x" * 3])])
+    return out
+
+
+def rand_coll(rng):
+    """a collection argument: class kind x items (str / BaseCfgLine / foreign type)"""
+    kind = rng.choice(["list", "tuple", "list", "tuple", "seq", "sized"])
+    r = rng.random()
+    n = rng.choice([0, 1, 1, 2, 3, 5])
+    if r < 0.35:
+        items = _rand_items(rng, n, 0.4, 0.1)
+    elif r < 0.6:
+        items = _rand_items(rng, n, 0.0, 0.5)
+    else:
+        items = _rand_items(rng, n, 0.0, 0.0)
+    if kind == "seq":
+        if items and all(it == ["O", "int"] for it in items):
+            cls = rng.choice(["bytes", "bytearray", "range", "deque"])
+        elif not items:
+            cls = rng.choice(SEQ_CLASSES)
+        elif all(it[0] == "L" for it in items):
+            cls = rng.choice(["deque", "UserList", "ConfigList"])
+        else:
+            cls = rng.choice(["deque", "UserList"])
+        if cls == "range":
+            items = [["O", "int"]] * len(items)
+    elif kind == "sized":
+        cls = rng.choice(SIZED_CLASSES)
+        seen, uniq = set(), []
+        for it in items:                       # a set holds each value once (and no list / no two equal objects)
+            it = ["O", "int"] if it == ["O", "list"] else it
+            key = tuple(it)
+            if key not in seen:
+                seen.add(key)
+                uniq.append(it)
+        items = uniq
+    else:
+        cls = kind
+    return {"form": "coll", "kind": kind, "cls": cls, "items": items}
+
+
+def xcases(rng, tier):
+    n = {"quick": 90, "thorough": 2500, "search": 150}[tier]
+    fixed = [
+        {"form": "coll", "kind": "list", "cls": "list", "items": [["s", "a"], ["O", "int"]]},
+        {"form": "coll", "kind": "tuple", "cls": "tuple", "items": [["O", "None"]]},
+        {"form": "coll", "kind": "list", "cls": "list", "items": [["s", "a"], ["L"]]},
+        {"form": "coll", "kind": "list", "cls": "list", "items": [["L"], ["L"]]},
+        {"form": "coll", "kind": "list", "cls": "list", "items": [["s", "a"], ["s", " b"]]},
+        {"form": "coll", "kind": "sized", "cls": "set", "items": [["s", "a"], ["s", "b"]]},
+        {"form": "coll", "kind": "sized", "cls": "set", "items": []},
+        {"form": "coll", "kind": "sized", "cls": "dict", "items": [["s", "a"]]},
+        {"form": "coll", "kind": "sized", "cls": "dict", "items": []},
+        {"form": "coll", "kind": "sized", "cls": "frozenset", "items": [["O", "int"]]},
+        {"form": "coll", "kind": "seq", "cls": "bytes", "items": [["O", "int"], ["O", "int"]]},
+        {"form": "coll", "kind": "seq", "cls": "bytes", "items": []},
+        {"form": "coll", "kind": "seq", "cls": "range", "items": []},
+        {"form": "coll", "kind": "seq", "cls": "deque", "items": [["s", "a"], ["s", " b"]]},
+        {"form": "coll", "kind": "seq", "cls": "UserList", "items": [["s", "a"]]},
+        {"form": "coll", "kind": "seq", "cls": "ConfigList", "items": [["L"], ["L"]]},
+        {"form": "coll", "kind": "seq", "cls": "deque", "items": [["L"]]},
+    ]
+    fixed += [{"form": "noiter", "len": k, "how": h} for k in (0, 1, 3) for h in NOITER]
+    fixed += [{"form": "unsized", "what": w} for w in UNSIZED]
+    fixed += [{"form": "dir", "name": nm} for nm in DIR_NAMES] + [{"form": "dirpath", "name": nm} for nm in DIR_NAMES]
+    fixed += [{"form": "badbytes", "name": "c.cfg", "hex": h, "encoding": enc} for enc, hs in BAD_BYTES.items() for h in hs]
+    fixed += [{"form": "unreadable", "name": nm, "as_path": ap} for nm in UNREADABLE for ap in (False, True)]
+    if tier != "search":
+        for f in fixed:
+            yield mk_xbundle("ios", False, "\n", 1, [f], tag="x-" + f["form"])
+    for _ in range(n):
+        forms = []
+        for _ in range(rng.choice([1, 2, 3])):
+            r = rng.random()
+            if r < 0.6:
+                forms.append(rand_coll(rng))
+            elif r < 0.7:
+                forms.append({"form": "noiter", "len": rng.choice([0, 1, 2, 7]), "how": rng.choice(NOITER)})
+            elif r < 0.8:
+                forms.append({"form": "unsized", "what": rng.choice(UNSIZED)})
+            elif r < 0.9:
+                forms.append({"form": rng.choice(["dir", "dirpath"]), "name": rng.choice(DIR_NAMES)})
+            else:
+                enc = rng.choice(list(BAD_BYTES))
+                forms.append({"form": "badbytes", "name": rng.choice(FNAMES[:5]), "hex": rng.choice(BAD_BYTES[enc]), "encoding": enc})
+        yield mk_xbundle(rng.choice(T.SYNTAXES), rng.random() < 0.3, rng.choice(["\n", "\r\n"]), rng.choice([1, 2]), forms)
+    # operations on a finished object
+    ops_all = ["save:ok", "save:dir", "save:nodir", "reread"]
+    for i in range({"quick": 80, "thorough": 2500, "search": 150}[tier]):
+        ls = [l for l in T.rand_config(rng, 8, True, None) if not _has_break(l)]
+        enc = rng.choice(["utf-8", "latin-1", "latin-1"])
+        r = rng.random()
+        if enc == "latin-1" and r < 0.55:
+            ls = [_latin1(l) for l in ls]
+            if r < 0.3:
+                ls.insert(rng.randrange(len(ls) + 1), " description caf\u00e9 \u00ff")
+        elif r < 0.9:
+            ls.insert(rng.randrange(len(ls) + 1), rng.choice([" description 5\u20ac", "! \u0416", " x\u0100", "\U0001F600"]))
+        if rng.random() < 0.2:
+            ls = ls + [""] * rng.choice([1, 2])
+        ops = [rng.choice(ops_all) for _ in range(rng.choice([1, 2, 4]))] if i >= 4 else [ops_all[i]]
+        yield mk_after(rng.choice(T.SYNTAXES), rng.random() < 0.3, rng.choice(["\n", "\n", "\r\n"]), enc, ls, ops)
+
+
 def cases(rng, tier):
     selfcheck()
     T.selfcheck()
@@ -237,6 +423,7 @@ def cases(rng, tier):
     for i in range(max(10, nb // 20)):
         s = rng.choice(MALFORMED_STR) if rng.random() < 0.5 else _rand_raw(rng, rng.choice([1, 2, 4])).replace("\n", "x")
         yield mk_bundle(rng.choice(T.SYNTAXES), False, "\n", 1, [{"form": "str", "text": s}], tag="malformed")
+    yield from xcases(rng, tier)
 
 
 def neighbours(case, rng):
@@ -248,6 +435,9 @@ def neighbours(case, rng):
             else:
                 s.insert(rng.randrange(len(s) + 1), rng.choice(["a", "\n", "\r", "\x0b"]))
             yield mk_split("".join(s))
+        return
+    if case["kind"] in ("xbundle", "after"):
+        yield from xcases(rng, "search")
         return
     base = case.get("base")
     for _ in range(150):
@@ -266,6 +456,10 @@ def neighbours(case, rng):
 def nontrivial(case):
     if case["kind"] == "split":
         return _has_break(case["text"])
+    if case["kind"] == "after":
+        return len(case["lines"]) >= 2
+    if case["kind"] == "xbundle":
+        return any(len(f.get("items", [])) >= 2 for f in case["forms"])
     if case.get("base") is not None:
         return len(case["base"]) >= 2
     return any(_has_break(f.get("text", "")) for f in case["forms"])
@@ -274,6 +468,8 @@ def nontrivial(case):
 def describe(case):
     if case["kind"] == "split":
         return {"kind": "split", "text": case["text"]}
+    if case["kind"] == "after":
+        return {k: case[k] for k in ("kind", "syntax", "ignore_blank", "linesep", "encoding", "lines", "ops")}
     d = {k: case[k] for k in ("kind", "tag", "syntax", "ignore_blank", "linesep", "cycles")}
     if sum(len(str(f)) for f in case["forms"]) < 3000:
         d["forms"] = case["forms"]
@@ -287,10 +483,18 @@ def describe(case):
 def buckets(case, ans):
     if case["kind"] == "split":
         return ["kind:split", "split-len:%d" % min(10, len(case["text"]))]
+    if case["kind"] == "after":
+        out = ["kind:after", "encoding:" + case["encoding"]]
+        for op, a in zip(case["ops"], ans.split("|")):
+            out.append("after:" + op + "=" + (a if a.startswith("err:") else "ok"))
+        return out
     out = ["kind:" + case["tag"], "syntax:" + case["syntax"], "ignore_blank:%d" % case["ignore_blank"],
            "linesep:" + ("LF" if case["linesep"] == "\n" else "CRLF"), "cycles:%d" % case["cycles"]]
     for f, a in zip(case["forms"], ans.split("#")):
         out.append("form:" + f["form"])
+        if f["form"] == "coll":
+            out.append("coll:" + f["cls"] + ("/empty" if not f["items"] else "/str" if all(i[0] == "s" for i in f["items"])
+                                             else "/foreign" if any(i[0] == "O" for i in f["items"]) else "/cfgline"))
         if f["form"] in ("file", "pathlib"):
             out.append("encoding:" + f["encoding"])
             c = f["content"]
@@ -349,8 +553,110 @@ def _dump_cycles(CiscoConfParse, first, kw, encoding, n):
     return "&".join(out)
 
 
+def _py_item(it, line_objs):
+    if it[0] == "s":
+        return it[1]
+    if it[0] == "L":
+        return line_objs.pop()
+    return {"int": 5, "None": None, "bytes": b"ab", "list": ["a"], "float": 1.5}[it[1]]
+
+
+def _py_coll(f, CiscoConfParse):
+    """the real Python object described by a `coll` form"""
+    import collections
+    n_l = sum(1 for it in f["items"] if it[0] == "L")
+    donor = CiscoConfParse(["line %d" % i for i in range(n_l)]) if n_l else None
+    cls = f["cls"]
+    if cls == "ConfigList":
+        return donor.config_objs if donor is not None else CiscoConfParse([]).config_objs
+    line_objs = list(donor.objs)[::-1] if donor is not None else []
+    items = [_py_item(it, line_objs) for it in f["items"]]
+    if cls == "list":
+        return items
+    if cls == "tuple":
+        return tuple(items)
+    if cls == "deque":
+        return collections.deque(items)
+    if cls == "UserList":
+        return collections.UserList(items)
+    if cls == "bytes":
+        return bytes([97] * len(items))
+    if cls == "bytearray":
+        return bytearray([97] * len(items))
+    if cls == "range":
+        return range(len(items))
+    if cls == "set":
+        return set(items)
+    if cls == "frozenset":
+        return frozenset(items)
+    if cls == "dict":
+        return {k: 1 for k in items}
+    raise AssertionError(cls)
+
+
+class _NoIter:
+    def __init__(self, n):
+        self.n = n
+
+    def __len__(self):
+        return self.n
+
+
+class _IterTypeError(_NoIter):
+    def __iter__(self):
+        raise TypeError("not today")
+
+
+class _IterAttributeError(_NoIter):
+    def __iter__(self):
+        raise AttributeError("not today")
+
+
+def _py_unsized(what):
+    return {"int": 5, "float": 1.5, "bool": True, "generator": (x for x in ["a", "b"]), "object": object(),
+            "iterator": iter(["a", "b"])}[what]
+
+
+def _impl_after(case):
+    import ciscoconfparse2.ciscoconfparse2 as mod
+    from ciscoconfparse2 import CiscoConfParse
+    enc = case["encoding"]
+    kw = dict(syntax=case["syntax"], factory=False, ignore_blank_lines=case["ignore_blank"])
+    cwd = os.getcwd()
+    scratch = tempfile.mkdtemp(prefix="ccp2-c09-")
+    assert not scratch.startswith(("/repo", "/verif"))
+    out = []
+    try:
+        os.chdir(scratch)
+        os.mkdir("adir")
+        with open("there.cfg", "w") as fh:
+            fh.write("a\n b\n")
+        parse = CiscoConfParse(list(case["lines"]), encoding=enc, **kw)
+        with _Linesep(mod, case["linesep"]):
+            for i, op in enumerate(case["ops"]):
+                try:
+                    if op == "reread":
+                        out.append(wire.enc_strs(parse.read_config_file("there.cfg")))
+                        continue
+                    target = {"save:ok": "out%d.cfg" % i, "save:dir": "adir", "save:nodir": "nodir/out.cfg"}[op]
+                    r = parse.save_as(target)
+                    if r is not True:
+                        out.append("returned:" + repr(r))
+                        continue
+                    data = open(target, "rb").read()
+                    out.append(wire.enc_str(data.decode(enc)))
+                except Exception as e:  # noqa: BLE001
+                    out.append("err:" + type(e).__name__)
+    finally:
+        os.chdir(cwd)
+        shutil.rmtree(scratch, ignore_errors=True)
+    return "|".join(out)
+
+
 def impl(case):
     quiet_ccp()
+    if case["kind"] == "after":
+        return _impl_after(case)
     if case["kind"] == "split":
         import inspect
         from ciscoconfparse2 import CiscoConfParse
@@ -374,7 +680,17 @@ def impl(case):
             if kind in ("file", "pathlib"):
                 with open(f["name"], "wb") as fh:
                     fh.write(f["content"].encode(enc))
-            arg = {"list": lambda: list(f["lines"]), "tuple": lambda: tuple(f["lines"]), "none": lambda: None,
+            elif kind == "badbytes":
+                with open(f["name"], "wb") as fh:
+                    fh.write(bytes.fromhex(f["hex"]))
+            elif kind in ("dir", "dirpath"):
+                os.makedirs(f["name"], exist_ok=True)
+            arg = {"coll": lambda: _py_coll(f, CiscoConfParse), "unsized": lambda: _py_unsized(f["what"]),
+                   "noiter": lambda: {"no-iter": _NoIter, "iter-TypeError": _IterTypeError,
+                                      "iter-AttributeError": _IterAttributeError}[f["how"]](f["len"]),
+                   "dir": lambda: f["name"], "dirpath": lambda: pathlib.Path(f["name"]), "badbytes": lambda: f["name"],
+                   "unreadable": lambda: pathlib.Path(f["name"]) if f.get("as_path") else f["name"],
+                   "list": lambda: list(f["lines"]), "tuple": lambda: tuple(f["lines"]), "none": lambda: None,
                    "str": lambda: f["text"], "file": lambda: f["name"], "missing": lambda: f["name"],
                    "pathlib": lambda: pathlib.Path(f["name"]), "pathlib_missing": lambda: pathlib.Path(f["name"])}[kind]()
             with _Linesep(mod, case["linesep"]):
@@ -436,9 +752,50 @@ def _parse_form_answer(a):
     return parts[0], wire.dec_strs(texts_w), cyc
 
 
+def _oracle_after(case, ans):
+    """save_as on a finished object: a bad target or text the codec cannot encode must raise (a config must not be
+    reported saved when the file cannot hold it); a good save holds the lines and ends with the line end"""
+    fails = []
+    answers = ans.split("|")
+    if len(answers) != len(case["ops"]):
+        return ["answer count differs from the number of operations"]
+    texts = T.ref_kept(case["lines"], case["syntax"] == "ios", case["ignore_blank"])
+    try:
+        ("\n".join(texts) + "\n").encode(case["encoding"])
+        encodable = True
+    except UnicodeEncodeError:
+        encodable = False
+    for op, a in zip(case["ops"], answers):
+        if op == "reread":
+            continue                                  # an API guard, compared with the model only
+        if op in ("save:dir", "save:nodir") or not encodable:
+            if not a.startswith("err:"):
+                fails.append(f"{op} (encodable={encodable}) did not raise: {a[:40]}")
+            continue
+        if a.startswith("err:") or a.startswith("returned:"):
+            fails.append(f"{op}: a writable target and encodable text, but {a[:40]}")
+            continue
+        w = wire.dec_str(a)
+        back = ref_file_lines(w)
+        if back not in (texts, texts + [""]) and not (texts == [] and back == ["", ""]):
+            fails.append(f"{op}: the saved file does not hold the lines of the object: {back[:6]!r} vs {texts[:6]!r}")
+        if not w.endswith(case["linesep"]):
+            fails.append(f"{op}: saved file does not end with a line end")
+    return fails[:4]
+
+
+def _coll_want(f):
+    """lines a collection form must be read as, or "err" when it is no configuration"""
+    if f["kind"] in ("list", "tuple") and all(it[0] == "s" for it in f["items"]):
+        return [it[1] for it in f["items"]]
+    return "err"
+
+
 def oracle(case, ans):
     if case["kind"] == "split":
         return []          # primitives: correspondence only
+    if case["kind"] == "after":
+        return _oracle_after(case, ans)
     fails = []
     ios = case["syntax"] == "ios"
     ign = case["ignore_blank"]
@@ -472,6 +829,10 @@ def oracle(case, ans):
             want = "err:FileNotFoundError"
         elif kind == "pathlib_missing":
             want = "err:FileNotFoundError"
+        elif kind == "coll":
+            want = _coll_want(f)      # only a list / tuple of str is a configuration
+        elif kind in ("noiter", "unsized", "dir", "dirpath", "badbytes", "unreadable"):
+            want = "err"              # nothing that could be "the file's text split at its line ends" / a line list
         if isinstance(want, str):
             if not a.startswith(want):
                 fails.append(f"{what}: expected {want}, got {a[:60]}")
